@@ -18,7 +18,7 @@ RULE = (
     "arrays / numpy record array / pandas DataFrame with string-expression quantities / a bare 1-D ndarray with "
     "quantities over the datum itself), weights (omitted / positive "
     "scalar / zero scalar / non-negative array incl. zeros) and cut points splitting the batch into 1..4 successive "
-    "fill.numpy calls (empty batches allowed).  Oracle: a twin tree filled row by row with the same weights has the "
+    "fill.numpy calls (empty batches allowed; the calls get freshly built arrays or consecutive slices of one table).  Oracle: a twin tree filled row by row with the same weights has the "
     "same document up to zero-weight sparse bins/categories (counts bit-exact when every partial sum is representable, "
     "rel 1e-9 otherwise, tolerance on means/variances); an exception on one side only is a violation; all input "
     "arrays are byte-identical (NaN-aware) to copies taken before the call.  Non-trivial: the batch holds a positively "
@@ -142,7 +142,7 @@ def strategy(tier):
         else:
             w = None
         cuts = draw(gen.cuts(n, 4))
-        return {"spec": spec, "rep": rep, "batch": batch, "wmode": wmode, "w": w, "cuts": cuts, "excluded": excluded}
+        return {"spec": spec, "rep": rep, "batch": batch, "wmode": wmode, "w": w, "cuts": cuts, "excluded": excluded, "views": draw(st.booleans())}
 
     return cases()
 
@@ -232,9 +232,20 @@ def check(case):
     hrow = build(spec, bare_qhook if bare else None)
     hnp = build(spec, bare_qhook if bare else None)
     chunks = gen.split(list(range(n)), case["cuts"])
+    whole = make_data(case["rep"], rows)
     for ch in chunks:
         sub = [rows[i] for i in ch]
-        data = make_data(case["rep"], sub)
+        if case.get("views", True) and ch:
+            # successive calls get consecutive slices of ONE table (views of the same buffers), as chunked filling does
+            a_, b_ = ch[0], ch[-1] + 1
+            if case["rep"] == "dict":
+                data = {k: v[a_:b_] for k, v in whole.items()}
+            elif case["rep"] == "df":
+                data = whole.iloc[a_:b_]
+            else:
+                data = whole[a_:b_]
+        else:
+            data = make_data(case["rep"], sub)
         before = _snapshot(case["rep"], data)
         if wmode == "array":
             warr = np.array([roww[i] for i in ch], dtype=np.float64)
